@@ -1,6 +1,7 @@
 use crate::engine::{Acc, Ctx};
 use serde_json::Value;
 
+pub mod anchor;
 pub mod c01;
 pub mod c02;
 pub mod c03;
